@@ -743,3 +743,122 @@ func URLShapeDocs() [][]byte {
 	}
 	return out
 }
+
+// attrNameNeighbours returns attribute names that are *near* the allowed vocabulary without being in it: every name of
+// ≤3 lower-case letters; for every allowed name every single-byte substitution, deletion, insertion and transposition of two
+// positions; every rearrangement of its first four bytes; every name whose first three bytes are each taken from the
+// same position of *some* allowed name (the joint adversary of per-position tables) with the tail of an allowed name; every
+// crossover head(b,k)+tail(a,k) of two allowed names; and (thorough) every double substitution by letters. Names in the
+// vocabulary itself are removed. Sorted, duplicate-free.
+func attrNameNeighbours(allowed []string, thorough bool) []string {
+	in := map[string]bool{}
+	for _, a := range allowed {
+		in[a] = true
+	}
+	seen := map[string]bool{}
+	var out []string
+	add := func(n string) {
+		if n == "" || in[n] || seen[n] || strings.HasPrefix(n, "data-") {
+			return
+		}
+		c := n[0]
+		if !(c >= 'a' && c <= 'z' || c >= 'A' && c <= 'Z' || c == '_' || c == ':') {
+			return
+		}
+		seen[n] = true
+		out = append(out, n)
+	}
+	const letters = "abcdefghijklmnopqrstuvwxyz"
+	for _, a := range letters {
+		add(string(a))
+		for _, b := range letters {
+			add(string(a) + string(b))
+			for _, c := range letters {
+				add(string(a) + string(b) + string(c))
+			}
+		}
+	}
+	var posAlpha [3]map[byte]bool
+	for i := range posAlpha {
+		posAlpha[i] = map[byte]bool{}
+		for _, a := range allowed {
+			if i < len(a) {
+				posAlpha[i][a[i]] = true
+			}
+		}
+	}
+	sub := letters + "-_0A"
+	for _, a := range allowed {
+		b := []byte(a)
+		for i := range b {
+			for j := 0; j < len(sub); j++ {
+				t := append([]byte{}, b...)
+				t[i] = sub[j]
+				add(string(t))
+				add(string(b[:i]) + string(sub[j]) + string(b[i:]))
+			}
+			add(string(b[:i]) + string(b[i+1:]))
+			for j := i + 1; j < len(b); j++ {
+				t := append([]byte{}, b...)
+				t[i], t[j] = t[j], t[i]
+				add(string(t))
+			}
+		}
+		add(a + "s")
+		// rearrangements of the first four bytes
+		k := len(b)
+		if k > 4 {
+			k = 4
+		}
+		var perm func(p []byte, rest []byte)
+		perm = func(p, rest []byte) {
+			if len(rest) == 0 {
+				add(string(p) + string(b[k:]))
+				return
+			}
+			for i := range rest {
+				r2 := append(append([]byte{}, rest[:i]...), rest[i+1:]...)
+				perm(append(append([]byte{}, p...), rest[i]), r2)
+			}
+		}
+		perm(nil, append([]byte{}, b[:k]...))
+		// first three bytes from the per-position unions
+		if len(b) >= 1 {
+			m := len(b)
+			if m > 3 {
+				m = 3
+			}
+			var rec func(i int, p []byte)
+			rec = func(i int, p []byte) {
+				if i == m {
+					add(string(p) + string(b[m:]))
+					return
+				}
+				for c := range posAlpha[i] {
+					rec(i+1, append(append([]byte{}, p...), c))
+				}
+			}
+			rec(0, nil)
+		}
+		for _, o := range allowed {
+			for k := 1; k < len(a) && k < len(o); k++ {
+				add(o[:k] + a[k:])
+			}
+		}
+		if thorough {
+			for i := range b {
+				for j := i + 1; j < len(b); j++ {
+					for x := 0; x < 26; x++ {
+						for y := 0; y < 26; y++ {
+							t := append([]byte{}, b...)
+							t[i], t[j] = letters[x], letters[y]
+							add(string(t))
+						}
+					}
+				}
+			}
+		}
+	}
+	sort.Strings(out)
+	return out
+}
